@@ -50,7 +50,7 @@ class C20(Prop):
             "keys: every name of length<=3 (quick) / <=4 (thorough) over the alphabet 'IVXaS_-.0129' "
             "(exhaustive), in batches of 60, plus random longer names with I-runs, leading zeros and unloc "
             "suffixes; sort: random multisets of 2-14 (rank,name) items sorted by smart_sort_scaffolds and "
-            "scaffolds_sorted_by_name from two different initial orders, and scaffold objects that were sorted under other names, renamed in place and sorted again. non-trivial = distinct batch / multiset"
+            "scaffolds_sorted_by_name from two different initial orders, and scaffold objects that were sorted under other names, renamed in place and sorted again; merged: the assemblies of one run through name_assemblies (Primary + other haplotypes merged into all_haplotigs, single, multi): every written assembly keeps the rank-first order of its sources. non-trivial = distinct batch / multiset"
         )
 
     def generate(self, rng, tier):
@@ -65,6 +65,8 @@ class C20(Prop):
             yield {"gen": "keys/random", "kind": "keys", "names": batch}
         for _ in range(150 if tier == "quick" else 2500):
             yield self.gen_sort(rng)
+        for _ in range(40 if tier == "quick" else 400):
+            yield self.gen_merged(rng)
         for _ in range(60 if tier == "quick" else 800):
             # the same scaffold objects are sorted, renamed in place (as the chromosome namer does), sorted again
             c = self.gen_sort(rng)
@@ -72,6 +74,50 @@ class C20(Prop):
             n = min(len(c["items"]), len(c2["items"]))
             yield {"gen": "resort", "kind": "sort", "items": c2["items"][:n], "perm": list(range(n))[::-1],
                    "first_names": [it[1] for it in c["items"][:n]]}
+
+    def gen_merged(self, rng):
+        """the assemblies of one run as pretext-to-asm names them: with a Primary haplotype the other
+        curated haplotypes are merged into one all_haplotigs file -- each still rank first"""
+        def asm_items(prefix):
+            items = []
+            for k in range(rng.randint(1, 3)):
+                items.append([1, f"SUPER_{k + 1}"])
+                if rng.random() < 0.4:
+                    items.append([1, f"SUPER_{k + 1}_unloc_1"])
+            if rng.random() < 0.5:
+                items.append([2, "SUPER_" + rng.choice(["X", "W", "Z1"])])
+            for k in range(rng.randint(0, 3)):
+                items.append([3, f"{prefix}_SCAFFOLD_{rng.randint(1, 40)}"])
+            rng.shuffle(items)
+            return items
+        mode = rng.choice(["Primary", "Primary", "single", "multi"])
+        if mode == "Primary":
+            asms = [["Primary", True, asm_items("HAP1")]] + [[h, True, asm_items(h.upper())] for h in rng.sample(["Hap2", "Hap3", "Alt"], rng.randint(1, 2))]
+        elif mode == "single":
+            asms = [[None, True, asm_items("scaffold")]]
+        else:
+            asms = [[h, True, asm_items(h.upper())] for h in ("Hap1", "Hap2")]
+        if rng.random() < 0.5:
+            asms.append(["Haplotig", False, [[3, f"H_{k + 1}"] for k in range(rng.randint(1, 3))]])
+        return {"gen": f"merged/{mode}", "kind": "merged", "asms": asms}
+
+    def merged_impl(self, case):
+        from tola.assembly.scripts.pretext_to_asm import name_assemblies
+
+        d = {}
+        for key, curated, items in case["asms"]:
+            a = Assembly("x", curated=curated)
+            for rank, nm in items:
+                a.add_scaffold(Scaffold(nm, rank=rank))
+            a.smart_sort_scaffolds()          # what assemblies_with_scaffolds_fused hands over
+            d[key] = a
+        before = {k: [(s.rank, s.name) for s in a.scaffolds] for k, a in d.items()}
+        try:
+            out = name_assemblies(d, "root", "1")
+        except Exception as e:
+            return {"err": type(e).__name__}
+        return {"before": [[k, v] for k, v in before.items()],
+                "named": [[k, a.name, [(s.rank, s.name) for s in a.scaffolds]] for k, a in out.items()]}
 
     def gen_sort(self, rng):
         style = rng.choice(["super", "roman", "mixed", "small"])
@@ -132,6 +178,8 @@ class C20(Prop):
         return res
 
     def run_impl(self, case):
+        if case["kind"] == "merged":
+            return self.merged_impl(case)
         if case["kind"] == "keys":
             return [impl_key(n) for n in case["names"]]
         items = case["items"]
@@ -144,6 +192,8 @@ class C20(Prop):
         def kterm(k, names):
             return listlit(k, lambda e: f"KS {names(e)}" if isinstance(e, str) else f"KI {zlit(e)}")
 
+        if case["kind"] == "merged":
+            return []        # oracle only (the model of name_assemblies is compared in C09 / C10)
         if case["kind"] == "keys":
             def t(names):
                 return "CKeys " + listlit(
@@ -162,6 +212,35 @@ class C20(Prop):
         return t
 
     def oracle(self, case, obs):
+        if case["kind"] == "merged":
+            if "err" in obs:
+                return f"name_assemblies raised {obs['err']}"
+            before = {k: [tuple(x) for x in v] for k, v in obs["before"]}
+            for k, v in before.items():
+                ks = [(r, oracle_key(n)) for r, n in v]
+                if ks != sorted(ks):
+                    return f"assembly {k}: not in rank-then-name order"
+            merged = [x for x in obs["named"] if x[0] == "all_haplotigs"]
+            for _, name, scs in obs["named"]:
+                scs = [tuple(x) for x in scs]
+                # every written assembly is one of the sorted assemblies, or (all_haplotigs) several of
+                # them one after the other -- never re-sorted by name alone
+                parts = [v for v in before.values()]
+                if scs in parts:
+                    continue
+                rest = list(scs)
+                ok = bool(merged) and name.endswith("all_haplotigs")
+                for k, v in before.items():
+                    if k in ("Primary", "Haplotig"):
+                        continue
+                    if rest[: len(v)] == v:
+                        rest = rest[len(v):]
+                    else:
+                        ok = False
+                if not ok or rest:
+                    return (f"output assembly {name}: scaffold order {[n for _, n in scs]} is not the rank-first order "
+                            f"of its source assemblies (rank no longer takes precedence over name)")
+            return None
         if case["kind"] == "keys":
             for nm, k in zip(case["names"], obs):
                 if isinstance(k, dict):
@@ -198,6 +277,15 @@ class C20(Prop):
             if len(case["names"]) > 1:
                 for n in case["names"]:
                     yield {**case, "names": [n]}
+            return
+        if case["kind"] == "merged":
+            asms = case["asms"]
+            for i in range(len(asms)):
+                if len(asms) > 2:
+                    yield {**case, "asms": asms[:i] + asms[i + 1 :]}
+                for j in range(len(asms[i][2])):
+                    if len(asms[i][2]) > 1:
+                        yield {**case, "asms": asms[:i] + [[asms[i][0], asms[i][1], asms[i][2][:j] + asms[i][2][j + 1 :]]] + asms[i + 1 :]}
             return
         items = case["items"]
         for j in range(len(items)):
